@@ -1,1 +1,2 @@
+import Neutrino.Props.C13
 import Neutrino.Props.C16
